@@ -69,6 +69,11 @@ type simInput struct {
 	result      chan sweep.Result
 	final       string
 	live        *simReq
+	// retryRate: fee rate (sat/kw) carried by the TxFailed / TxUnknownSpend
+	// result of the last request that contained this input - documented as
+	// "the starting fee rate to use for the next sweeping attempt"
+	retryRate int64
+	retryFrom string
 }
 
 func (in *simInput) label() string { return fmt.Sprintf("i%d", in.idx) }
